@@ -52,17 +52,13 @@ def judge(ctx):
     expected = 0 if verb == "OFF" else hooks
     out = []
     if met["instrumentedPropagation"] != expected:
-        classes = m.get("classes", [])
-        cls = "compound-target-instrumentable" if ("compound-target-instrumentable" in classes and met["instrumentedPropagation"] < hooks) else None
-        out.append(Failure("count: instrumentedPropagation=%d but %d hook call sites were emitted (verbosity %s)" % (met["instrumentedPropagation"], hooks, verb), cls=cls, info=info))
+        out.append(Failure("count: instrumentedPropagation=%d but %d hook call sites were emitted (verbosity %s)" % (met["instrumentedPropagation"], hooks, verb), info=info))
     if verb == "DEBUG":
         tags = collections.Counter(m.get("out_hook_tags", [])) - collections.Counter(m.get("in_hook_tags", []))
         if not modified:
             tags = collections.Counter()
         if dict(tags) != (met.get("propagationDebug") or {}):
-            classes = m.get("classes", [])
-            cls = "compound-target-instrumentable" if "compound-target-instrumentable" in classes else None
-            out.append(Failure("tags: propagationDebug=%s but the emitted hook sites are tagged %s" % (met.get("propagationDebug"), dict(tags)), cls=cls, info=info))
+            out.append(Failure("tags: propagationDebug=%s but the emitted hook sites are tagged %s" % (met.get("propagationDebug"), dict(tags)), info=info))
     else:
         if met.get("propagationDebug") is not None:
             out.append(Failure("tags: propagationDebug present with verbosity %s" % verb, info=info))
